@@ -1,6 +1,6 @@
 (* C18 (extension) - gen_refines_hand_model: the functions translated from the source on every run
    (gen/G18_proofs.v) compute exactly what the hand models M18_range / M18_bitpairs compute. *)
-From Coq Require Import ZArith List Bool Lia QArith Btauto.
+From Coq Require Import ZArith List Bool Lia ZifyBool QArith Btauto.
 From IPV8V Require Import lib.PyErr lib.Bytes model.M18_hom model.M18_range model.M18_bitpairs model.M18_gen_rt model.M18_driver gen.G18_proofs
   proofs.P18_hom proofs.P18_range.
 Import ListNotations.
@@ -416,3 +416,83 @@ Proof. exists (certainty e e). split; [apply certainty_refines|apply true_value_
 Lemma gen_other_profile_zero_w e o : r3 e = 0 -> r3 o = 0 -> rm_total e = rm_total o -> e <> o ->
   exists q, g_binary_relativity_certainty e o = Ok q /\ (q == 0)%Q.
 Proof. intros. exists (certainty e o). split; [apply certainty_refines|apply other_profile_zero_l; assumption]. Qed.
+
+(* ================================================================== pengbaorange/algorithm.py: challenge domain vs. guard *)
+Lemma draw_while_exit c q m x : draw_while c q m = Ok x -> c x = false.
+Proof.
+  induction q as [|d q IH]; cbn [draw_while]; [discriminate|].
+  destruct (m =? 0); [discriminate|]. destruct (c (d mod m)) eqn:E; [exact IH|]. intros H; inversion H; subst. exact E.
+Qed.
+
+Section Challenge.
+  Variable G : Type.
+  Variable gmul : G -> G -> G.
+  Variable gone : G.
+  Variable ginv : G -> G.
+  Variable geqb : G -> G -> bool.
+  Variable PKg PKh : G.
+  Variable Hsh : G -> G -> Z.
+  Variable gmodulus : G -> Z.
+
+  (* what the verifier can draw (create_challenges over _safe_rndint), for every content of the queues *)
+  Definition drawable (s t : Z) : Prop := exists rq, g_pb_create_challenges G PKg gmodulus rq = Ok (s, t).
+
+  (* every challenge the verifier can draw is answered honestly by the prover - never with the random garbage
+     meant for challenges that are "too small" *)
+  Lemma challenge_domain_is_answered_l s t priv rq' : drawable s t ->
+    g_pb_create_challenge_response G PKg gmodulus priv s t rq' = Ok (generate_response priv s t).
+  Proof.
+    intros (rq & H). unfold g_pb_create_challenges in H. cbv zeta in H.
+    destruct (g_safe_rndint _ (nth 0 rq [])) as [s0|] eqn:E0; [|discriminate]. cbn [bind] in H.
+    destruct (g_safe_rndint _ (nth 1 rq [])) as [t0|] eqn:E1; [|discriminate]. cbn [bind] in H.
+    inversion H; subst s0 t0; clear H.
+    apply draw_while_exit in E0, E1.
+    unfold g_pb_create_challenge_response.
+    (* whatever way the guard is written: it cannot hold for values the loop of _safe_rndint lets through *)
+    match goal with |- (if ?c then _ else _) = _ => destruct c eqn:Eg end; [exfalso; unfold LARGE_INTEGER in *; lia|].
+    rewrite generate_response_refines. cbn [bind]. unfold generate_response. reflexivity.
+  Qed.
+
+  Lemma drawable_positive s t : drawable s t -> 0 < s /\ 0 < t.
+  Proof.
+    intros (rq & H). unfold g_pb_create_challenges in H. cbv zeta in H.
+    destruct (g_safe_rndint _ (nth 0 rq [])) as [s0|] eqn:E0; [|discriminate]. cbn [bind] in H.
+    destruct (g_safe_rndint _ (nth 1 rq [])) as [t0|] eqn:E1; [|discriminate]. cbn [bind] in H.
+    inversion H; subst s0 t0; clear H.
+    apply draw_while_exit in E0, E1. unfold LARGE_INTEGER in *. lia.
+  Qed.
+
+  (* the whole honest exchange over the translated code: builder, verifier's draw, prover's answer, verifier's check *)
+  Lemma gen_honest_range_exchange_accepted_l : abelian_group G gmul gone ginv -> (forall x, geqb x x = true) ->
+    forall v a b bitspace rq sec pub priv rest s t rq',
+    g_create_attest_pair G gmul gone ginv PKg PKh Hsh gmodulus v a b bitspace rq sec = Ok ((pub, priv), rest) ->
+    0 <= p_m2 priv -> drawable s t ->
+    exists x y u w, g_pb_create_challenge_response G PKg gmodulus priv s t rq' = Ok (x, y, u, w) /\
+                    g_range_check G gmul gone ginv geqb PKg PKh Hsh pub a b s t x y u w = Ok true.
+  Proof.
+    intros Hg Hr v a b bitspace rq sec pub priv rest s t rq' Hc Hm2 Hd.
+    destruct (drawable_positive s t Hd) as [Hs Ht].
+    rewrite (challenge_domain_is_answered_l s t priv rq' Hd).
+    pose proof (gen_range_complete_w G gmul gone ginv geqb PKg PKh Hsh gmodulus Hg Hr v a b bitspace rq sec pub priv rest s t
+                  (generate_response priv s t) Hc Hm2 Hs Ht (generate_response_refines priv s t)) as Hok.
+    unfold generate_response in *. eexists _, _, _, _. split; [reflexivity|exact Hok].
+  Qed.
+End Challenge.
+
+Lemma challenge_domain_is_answered_w G PKg gmodulus rq s t priv rq' :
+  g_pb_create_challenges G PKg gmodulus rq = Ok (s, t) ->
+  g_pb_create_challenge_response G PKg gmodulus priv s t rq' = Ok (generate_response priv s t).
+Proof. intros H. apply challenge_domain_is_answered_l. exists rq. exact H. Qed.
+
+Lemma gen_honest_range_exchange_accepted_w G gmul gone ginv geqb PKg PKh Hsh gmodulus :
+  abelian_group G gmul gone ginv -> (forall x, geqb x x = true) ->
+  forall v a b bitspace rq sec pub priv rest crq s t rq',
+  g_create_attest_pair G gmul gone ginv PKg PKh Hsh gmodulus v a b bitspace rq sec = Ok ((pub, priv), rest) ->
+  0 <= p_m2 priv -> g_pb_create_challenges G PKg gmodulus crq = Ok (s, t) ->
+  exists x y u w, g_pb_create_challenge_response G PKg gmodulus priv s t rq' = Ok (x, y, u, w) /\
+                  g_range_check G gmul gone ginv geqb PKg PKh Hsh pub a b s t x y u w = Ok true.
+Proof.
+  intros Hg Hr v a b bitspace rq sec pub priv rest crq s t rq' Hc Hm2 Hd.
+  apply (gen_honest_range_exchange_accepted_l G gmul gone ginv geqb PKg PKh Hsh gmodulus Hg Hr v a b bitspace rq sec pub priv rest s t rq' Hc Hm2).
+  exists crq. exact Hd.
+Qed.
